@@ -509,6 +509,7 @@ pub fn expand(rec: &Recipe) -> Collection {
     // names
     let mut nr = SplitMix::new(rec.names.seed);
     let mut samples = Vec::new();
+    let mut used_stems: std::collections::BTreeSet<String> = std::collections::BTreeSet::new();
     for (si, contigs) in raw_samples.into_iter().enumerate() {
         let stem: String = {
             // dots as in accession-style names (GCA_000001405.15): the file-name -> sample-name rule
@@ -516,12 +517,16 @@ pub fn expand(rec: &Recipe) -> Collection {
             let alphabet = b"abcdefghijklmnopqrstuvwxyzABCDEFGHIJKLMNOPQRSTUVWXYZ0123456789_-....";
             let n = 1 + nr.below(8) as usize;
             let mut body: String = (0..n).map(|_| alphabet[nr.below(alphabet.len() as u64) as usize] as char).collect();
-            // keep the name itself free of a trailing FASTA / gzip extension (the rule would strip it)
-            let lower = body.to_ascii_lowercase();
-            if lower.ends_with('.') || lower.ends_with(".fa") || lower.ends_with(".fasta") || lower.ends_with(".fna") || lower.ends_with(".gz") {
-                body.push('x');
+            // the index goes last, so that lexicographic name order is unrelated to the order in which
+            // the samples are added (a listing or prefix lookup that sorts would otherwise go unnoticed);
+            // a name ending in a digit also never ends in a FASTA / gzip extension the rule would strip
+            let mut stem = format!("s{}{}", body, si);
+            while used_stems.contains(&stem) {
+                body.push('_');
+                stem = format!("s{}{}", body, si);
             }
-            format!("s{}{}", si, body)
+            used_stems.insert(stem.clone());
+            stem
         };
         let name = if rec.pansn { format!("{}#{}", stem, nr.below(3)) } else { stem };
         let recs = contigs
